@@ -119,6 +119,51 @@ print(json.dumps({'zonedbpy': {n: hash_name(n) for n in names}, 'keys': sorted(z
             dbs.append({'label': label + ':kZoneId-constants', 'ids': [{'n': nid(n), 'id': limbs(int(v, 16))} for _s, v, n in kids], 'registry': [], 'zones': [], 'zoneset': 0, 'links': []})
             if set(zid) != {s for s, _n in zones}:
                 chk.violation('%s:zone-symbols' % label, 'zone_infos.cpp defines %s differently from the header' % sorted(set(zid) ^ {s for s, _n in zones})[:5], {})
+    # ---- two more sources, audited directly: (a) zone names that normalise to one identifier (no link involved): whatever
+    #      is emitted must be internally consistent in both languages; (b) a link name declared twice with different targets:
+    #      if it is emitted it must denote the zone zic resolves it to
+    similar2 = ['Zone\tTest/Foo-Bar\t1:00\t-\tTST', 'Zone\tTest/Foo_Bar\t2:00\t-\tUST', 'Zone\tTest/Other\t3:00\t-\tVST', 'Link\tTest/Other\tTest/Elsewhere']
+    duplink = ['Zone\tTest/Alpha\t1:00\t-\tAST', 'Zone\tTest/Beta\t2:00\t-\tBST', 'Zone\tTest/Gamma\t3:00\t-\tCST',
+               'Link\tTest/Alpha\tLegacy/Moved', 'Link\tTest/Gamma\tLegacy/Kept', 'Link\tTest/Beta\tLegacy/Moved']
+    from .. import zicoracle
+    for sname, lines in (('similar-names-no-link', similar2), ('duplicate-link-lines', duplink)):
+        w = os.path.join(work, sname)
+        os.makedirs(w)
+        zout, zrc, zmsg = zicoracle.zic_compile(lines, w)
+        for scope in ('basic', 'extended'):
+            label = '%s:%s' % (sname, scope)
+            res, out, err = compiler.run_compiler(lines, w, scope, flags=('arduino', 'python'))
+            if res is None:
+                chk.notes.append('%s: refused by the compiler (%s)' % (label, (err[1] or '').strip().splitlines()[-1][:120] if err and err[1] else err))
+                continue
+            # python tables: the record filed under a name is the record of that name; one record per emitted zone
+            rc, o, e, _ = common.run_cmd([common.PY, '-c', 'import sys, os, json, importlib; d = sys.argv[1]; open(os.path.join(d, "__init__.py"), "a").close(); sys.path.insert(0, os.path.dirname(d)); z = importlib.import_module(os.path.basename(d) + ".zone_infos"); print(json.dumps({k: v["name"] for k, v in z.ZONE_INFO_MAP.items()}))', os.path.join(out, 'python')], env=compiler.tool_env(), timeout=120)
+            if rc != 0:
+                chk.violation('%s:python-tables-do-not-load' % label, 'generated Python tables do not import: %s' % e[-500:], {})
+            else:
+                pm = json.loads(o)
+                for k, nme in sorted(pm.items()):
+                    if k != nme:
+                        chk.violation('%s:python:%s:wrong-record' % (label, k), 'ZONE_INFO_MAP[%r] holds the record of %r' % (k, nme), {'key': k, 'record': nme})
+                if sorted(pm) != sorted(res['emitted_zones']):
+                    chk.violation('%s:python:zone-set' % label, 'ZONE_INFO_MAP has %s, the compiler emitted %s' % (sorted(pm), sorted(res['emitted_zones'])), {})
+            # C++ tables: compile, every emitted zone once in the registry, its name and id its own
+            zones_h, links_h, kids = header_info(os.path.join(out, 'arduino', 'zone_infos.h'))
+            cpp = open(os.path.join(out, 'arduino', 'zone_infos.cpp')).read()
+            defs = re.findall(r'const \w+::ZoneInfo (kZone\w+) ACE_TIME_PROGMEM = \{', cpp)
+            if len(defs) != len(set(defs)):
+                chk.violation('%s:arduino:duplicate-definition' % label, 'zone_infos.cpp defines a zone symbol twice: %s' % sorted(d for d in set(defs) if defs.count(d) > 1), {})
+            reg = re.findall(r'&(kZone\w+), // (\S+)', open(os.path.join(out, 'arduino', 'zone_registry.cpp')).read())
+            if sorted(n for _s, n in reg) != sorted(res['emitted_zones']) or len({s for s, _n in reg}) != len(reg):
+                chk.violation('%s:arduino:registry' % label, 'registry lists %s, emitted zones are %s' % (sorted(n for _s, n in reg), sorted(res['emitted_zones'])), {})
+            kid_names = [n for _s, _v, n in kids]
+            if len(kid_names) != len(set(kid_names)) or len({s for s, _v, _n in kids}) != len(kids):
+                chk.violation('%s:arduino:duplicate-id-constant' % label, 'a kZoneId constant is emitted twice: %s' % sorted(kids)[:6], {})
+            # links: an emitted link denotes what zic makes of the same lines
+            for a, t in sorted(res['emitted_links'].items()):
+                fa, ft = os.path.join(zout, a), os.path.join(zout, t)
+                if zrc == 0 and os.path.exists(fa) and os.path.exists(ft) and open(fa, 'rb').read() != open(ft, 'rb').read():
+                    chk.violation('%s:link:%s' % (label, a), 'emitted link %s -> %s, but zic resolves %s to a different zone' % (a, t, a), {'link': a, 'target': t})
     json.dump(probes_txt + [n['text'] for n in names], open(allnames_file, 'w'))
     rc, out, err, _ = common.run_cmd([common.PY, drv, allnames_file], env=compiler.tool_env(), timeout=300)
     if rc != 0:
